@@ -275,9 +275,9 @@ func CloneAndProcessList(outputNodes []*html.Node, pageURL *nurl.URL) *html.Node
 }
 
 // CloneAndProcessTree clone and process a given node tree/subtree.
-// In original dom-distiller this will ignore hidden elements,
-// unfortunately we can't do that here, so we will include hidden
-// elements as well. NEED-COMPUTE-CSS.
+// Like original dom-distiller this will ignore hidden elements, as
+// far as they can be detected without computing CSS (see
+// IsProbablyVisible). NEED-COMPUTE-CSS.
 func CloneAndProcessTree(root *html.Node, pageURL *nurl.URL) *html.Node {
 	return CloneAndProcessList(GetOutputNodes(root), pageURL)
 }
@@ -292,6 +292,19 @@ func GetOutputNodes(root *html.Node) []*html.Node {
 			return false
 
 		case html.ElementNode:
+			// Like the main walk of the converter, leave out descendants that
+			// are never rendered or probably hidden. The root itself is kept:
+			// its visibility has been decided by whoever picked it for output.
+			if node != root {
+				if tagName := dom.TagName(node); tagName == "script" || tagName == "style" {
+					return false
+				}
+
+				if !IsProbablyVisible(node) {
+					return false
+				}
+			}
+
 			outputNodes = append(outputNodes, node)
 			return true
 
